@@ -152,12 +152,14 @@ DeliverStale(m) == /\ m \in stale /\ up[m.to] /\ stale' = stale \ {m}
 MInfo(c, q) == /\ mig[c][q].pc = "idle" /\ up[q] /\ task[q] = "fin"
                /\ mig' = [mig EXCEPT ![c][q].pc = "commit"]
                /\ UNCHANGED <<broker, prox, sync, det, env>>
-\* commit_migration: found (pending) -> committed with a new epoch; otherwise MIGRATION_TASK_NOT_FOUND and the chain stops
+\* commit_migration: found (pending) -> committed with a new epoch.  Not found (somebody else committed it already):
+\* http_mani_broker.rs maps the broker's 404 MIGRATION_TASK_NOT_FOUND to Ok(()), so the chain goes on all the same and
+\* pushes the current view to the destination and the source (redundant with the sync loop, which converges on its own).
 MCommit(c, q) == /\ mig[c][q].pc = "commit"
                  /\ IF bMig = "pending"
-                    THEN /\ bMig' = "committed" /\ bE' = bE + 1 /\ commits' = commits + 1
-                         /\ mig' = [mig EXCEPT ![c][q].pc = "dget"]
-                    ELSE /\ mig' = [mig EXCEPT ![c][q] = Idle] /\ UNCHANGED <<bMig, bE, commits>>
+                    THEN bMig' = "committed" /\ bE' = bE + 1 /\ commits' = commits + 1
+                    ELSE UNCHANGED <<bMig, bE, commits>>
+                 /\ mig' = [mig EXCEPT ![c][q].pc = "dget"]
                  /\ UNCHANGED <<failedP, reports, prox, sync, det, env>>
 \* the commit took effect but its reply was lost
 MCommitLostReply(c, q) == /\ "lostreply" \in Features /\ mig[c][q].pc = "commit" /\ bMig = "pending" /\ CanFault
